@@ -1,6 +1,19 @@
 //! G8 (C09, C12): the async readers take a length from the wire and allocate it before reading.
 //! A negative length must give an error (the in-memory reader does), not a `capacity overflow` panic.
 use pilota::thrift::{binary::TAsyncBinaryProtocol, compact::TAsyncCompactProtocol, TAsyncInputProtocol};
+use std::alloc::{GlobalAlloc, Layout, System};
+use std::sync::atomic::{AtomicUsize, Ordering};
+/// largest single request made to the global allocator
+static MAX_REQ: AtomicUsize = AtomicUsize::new(0);
+struct Counting;
+unsafe impl GlobalAlloc for Counting {
+    unsafe fn alloc(&self, l: Layout) -> *mut u8 { MAX_REQ.fetch_max(l.size(), Ordering::Relaxed); System.alloc(l) }
+    unsafe fn alloc_zeroed(&self, l: Layout) -> *mut u8 { MAX_REQ.fetch_max(l.size(), Ordering::Relaxed); System.alloc_zeroed(l) }
+    unsafe fn realloc(&self, p: *mut u8, l: Layout, n: usize) -> *mut u8 { MAX_REQ.fetch_max(n, Ordering::Relaxed); System.realloc(p, l, n) }
+    unsafe fn dealloc(&self, p: *mut u8, l: Layout) { System.dealloc(p, l) }
+}
+#[global_allocator]
+static A: Counting = Counting;
 fn main() {
     let which = std::env::args().nth(1).unwrap_or_default();
     let rt = tokio::runtime::Builder::new_current_thread().build().unwrap();
@@ -22,5 +35,36 @@ fn main() {
         let r = rt.block_on(async { TAsyncCompactProtocol::new(huge).read_bytes_vec().await });
         println!("compact.read_bytes_vec(4 GiB, 1 byte present) -> {}", if r.is_ok() { "Ok" } else { "Err" });
         assert!(r.is_err());
+    }
+    if which.is_empty() || which == "alloc" {
+        // G8b: a declared length of 1 GiB with 1 byte present must not request 1 GiB from the allocator
+        let big: &[u8] = &[0x40, 0x00, 0x00, 0x00, 0x41];
+        MAX_REQ.store(0, Ordering::Relaxed);
+        let r = rt.block_on(async { TAsyncBinaryProtocol::new(big).read_string().await });
+        let m = MAX_REQ.load(Ordering::Relaxed);
+        println!("bin.read_string(1 GiB declared, 1 byte present) -> {} largest allocation request {} bytes", if r.is_ok() { "Ok" } else { "Err" }, m);
+        assert!(r.is_err());
+        assert!(m <= (1 << 20), "allocation out of proportion to the 5-byte input");
+        let huge: &[u8] = &[0xff, 0xff, 0xff, 0xff, 0x07, 0x41];
+        MAX_REQ.store(0, Ordering::Relaxed);
+        let r = rt.block_on(async { TAsyncCompactProtocol::new(huge).read_bytes_vec().await });
+        let m = MAX_REQ.load(Ordering::Relaxed);
+        println!("compact.read_bytes_vec(2 GiB declared, 1 byte present) -> {} largest allocation request {} bytes", if r.is_ok() { "Ok" } else { "Err" }, m);
+        assert!(r.is_err());
+        assert!(m <= (1 << 20), "allocation out of proportion to the 6-byte input");
+    }
+    if which.is_empty() || which == "roundtrip" {
+        // the values still decode: lengths below, at and above the preallocation limit
+        for n in [0usize, 1, 65535, 65536, 65537, 300_000] {
+            let mut b = (n as i32).to_be_bytes().to_vec();
+            b.extend((0..n).map(|i| (i % 251) as u8));
+            b.push(0x7e);
+            let mut p = TAsyncBinaryProtocol::new(&b[..]);
+            let v = rt.block_on(async { p.read_bytes_vec().await }).unwrap();
+            assert!(v.len() == n && v[..] == b[4..4 + n]);
+            let nxt = rt.block_on(async { p.read_byte().await }).unwrap();
+            assert!(nxt == 0x7e, "read past or short of the value");
+        }
+        println!("roundtrip of 0..300000-byte values ok, next byte intact");
     }
 }
